@@ -146,5 +146,21 @@ PosRefines == iters[1].posok =>
 \* machine does not admit would otherwise just be disabled, i.e. silently not explored)
 NextRefines == \A r \in NextLoop(impl, K, iters[1].mode) : r.tok \in { o.tok : o \in NextOutcomes(iters[1]) }
 PeekRefines == WithAdvance => \A n \in 0..3 : ImplPeek(impl, K, iters[1].mode, n) \subseteq PeekResults(iters[1], n)
-IInv == CursorRefines /\ PosRefines /\ NextRefines /\ PeekRefines
+\* ScannerApi!PeekResultOK (the linear check DoPeek uses) accepts exactly the members of
+\* ScannerApi!PeekResults (the definition): every member is accepted, and a member with one field
+\* changed - a token dropped at the end, a token's end moved, another classification, another
+\* target - is accepted only if it is a member too.
+PeekMutants(res) ==
+  LET L == Len(res.toks) IN
+  { [res EXCEPT !.kind = kd] : kd \in {"M", "E", "S", "N"} }
+  \cup { [res EXCEPT !.target = tg] : tg \in -1..2 }
+  \cup (IF L = 0 THEN {} ELSE { [res EXCEPT !.toks = SubSeq(res.toks, 1, L - 1)] })
+  \cup (IF L = 0 THEN {} ELSE { [res EXCEPT !.toks[L] = << res.toks[L][1], res.toks[L][2], res.toks[L][3] + d >>] : d \in {-1, 1} })
+  \cup (IF L = 0 THEN {} ELSE { [res EXCEPT !.toks[1] = << res.toks[1][1] + 1, res.toks[1][2], res.toks[1][3] >>] })
+PeekCheckLemma ==
+  WithAdvance => \A n \in 0..3 :
+    LET R == PeekResults(iters[1], n) IN
+    /\ \A res \in R : PeekResultOK(iters[1], n, res)
+    /\ \A res \in R : \A mu \in PeekMutants(res) : PeekResultOK(iters[1], n, mu) => mu \in R
+IInv == CursorRefines /\ PosRefines /\ NextRefines /\ PeekRefines /\ PeekCheckLemma
 =============================================================================
